@@ -221,7 +221,8 @@ def _ctparse(
         # get subject by extracting regex stack from raw text
         regex_matches = [match.prod for match in stack]
         regex_matches = [product.match.captures() for tuple in regex_matches for product in tuple]
-        regex_matches = [match.split() for i in regex_matches for match in i]
+        # split the matched texts exactly like the raw text below, so that every word inside a match is recognised
+        regex_matches = [[w for w in re.split(r'[\s-]+', match) if w] for i in regex_matches for match in i]
         regex_matches = list(chain.from_iterable(regex_matches))
 
         raw = re.split(r'[\s-]+', txt)
